@@ -7,11 +7,20 @@ from gffutils.feature import Feature
 from gv.model import dbutil
 
 ID = "C06"
-RULE = ("database A holds one feature for every pair start<=end of the bin-boundary coordinate set (two seqids, three strands, two types, "
-        "all children of one root, all parents of one leaf), database B every interval over 1..6, database T = A imported through a coordinate-moving transform; every query interval start<=end of the "
-        "same set x completely_within x call form (kwargs, tuple, string, Feature, seqid omitted, one-sided, limit= of all_features / "
-        "features_of_type / children / parents as tuple and string) x strand x featuretype is answered by the real code and by brute force. "
-        "Non-trivial = the expected answer is neither empty nor everything")
+RULE = (
+    "Three memoised real file databases: A holds one feature on seqid c1 for every pair start<=end of the bin-boundary coordinate set "
+    "(20 coordinates quick / 34 thorough: 1, 2, 5, 2^k+d for k in {17,20,23,26} and 2^29+d with |d|<=1 quick / <=2 thorough, plus a few "
+    "multiples; 215 / 600 features incl. 5 on seqid c2; strands cycle +,-,.; types cycle gene/exon; all are children of one root R and "
+    "parents of one leaf L); B every interval over positions 1..6; T = A's features written at a placeholder position and moved to "
+    "their coordinates by a create_db transform. Shards: A and B x 13 call forms x (for A) the query start; T x forms {kwargs, "
+    "all_features, children} x query start. Per shard every query end >= start x completely_within x strand {None,'+'} x featuretype "
+    "{None,'exon',('exon','gene')}. Call forms: region by kwargs, tuple, string, Feature, seqid omitted, start only, end only, limit= "
+    "of all_features (tuple and string), features_of_type, children, parents (limit as tuple or string), and two region() results "
+    "consumed interleaved. Each answer is compared with a brute-force scan (query-result-differs; region(Feature) accepted under both "
+    "strand readings), must contain no feature twice, one-sided forms are checked with must-return / may-return bounds, interleaved "
+    "results must equal the separately consumed ones. Non-trivial = the expected answer (one-sided: the must-return set) is neither "
+    "empty nor everything."
+)
 ASSUMPTIONS = [
     "for region(Feature) the strand is accepted under both readings (ignored per the docstring, or taken from the feature per the code)",
     "one-sided queries are checked with the statement's inclusion bounds (must-return / may-return), not an exact set",
